@@ -385,7 +385,37 @@ func runC08(c *Ctx) {
 			fn := p.Func(ld + ":(*diff)." + spec.name)
 			el := LockAtEntry(fn)
 			ok := el != nil && el.Field == muField && el.Deferred && (el.Mode == spec.mode || el.Mode == "Lock")
-			c.Check(ok, "C08.3-lock", FuncName(fn)+"|diff.mu."+spec.mode, p.Pos(fn.Pos()), "holds diff.mu ("+spec.mode+") for the whole call via defer")
+			detail := "holds diff.mu (" + spec.mode + ") for the whole call via defer"
+			if !ok {
+				// explicit Lock/Unlock pairs: every access to the skip list and the hash ranges is made
+				// with diff.mu held, and no exit leaves it held (lockset analysis)
+				la := NewLockAnalysis()
+				la.Analyze(fn)
+				key := LockKey{Obj: muField}
+				slF, rgF := p.Field(ld+":diff.sl"), p.Field(ld+":diff.ranges")
+				n, bad := 0, ""
+				Instrs(fn, func(in ssa.Instruction) {
+					fa, isFA := in.(*ssa.FieldAddr)
+					if !isFA || (FieldOf(fa) != slF && FieldOf(fa) != rgF) {
+						return
+					}
+					n++
+					if !la.Must(in)[key] {
+						bad = "diff." + FieldOf(fa).Name() + " is accessed at " + p.Pos(InstrPos(in)) + " without diff.mu held"
+					}
+				})
+				for _, ret := range Returns(fn) {
+					if la.May(ret)[key] {
+						bad = "the exit at " + p.Pos(InstrPos(ret)) + " may leave diff.mu held"
+					}
+				}
+				if n > 0 && bad == "" {
+					ok, detail = true, fmt.Sprintf("all %d accesses to the skip list / hash ranges are made with diff.mu held and every exit releases it", n)
+				} else if bad != "" {
+					detail = bad
+				}
+			}
+			c.Check(ok, "C08.3-lock", FuncName(fn)+"|diff.mu."+spec.mode, p.Pos(fn.Pos()), detail)
 		}
 		// users: after Diff.Set / RemoveId the stored/advertised hash is refreshed
 		mSet := p.Method(ld + ":Diff.Set")
